@@ -492,7 +492,7 @@ class DispatchMelodyChord(Stream):
         if case["separable"]:
             seen_c, seen_m = {}, {}
             for ci, pi, ni, env in envs(case["ms"]):
-                seen_c[ci] = natural(case["mask"], {k: v for k, v in env.items() if k in ("Chord",)})
+                seen_c[ci] = natural(case["mask"], {k: v for k, v in env.items() if k in ("Score", "Chord")})
                 envm = {k: v for k, v in env.items() if k in ("Score", "Chord", "Melody")}
                 seen_m[(ci, pi)] = natural(case["mask"], envm)
             for ci, want in seen_c.items():
@@ -529,6 +529,11 @@ class Pipelines(Stream):
             sc = mk_mscore(case["ms"], ids=False)
             # steps with and without a mask: a (name, transformer) step maps every element of its level
             steps = [(f"s{i}", NT(), mk_mask(m)) if (i + len(case["masks"])) % 3 else (f"s{i}", NT()) for i, m in enumerate(case["masks"])]
+            if len(case["masks"]) > 1 and len(case["ms"]["chords"]) % 2:
+                # a last step that only looks at what an earlier step produced (the step_<name> tags the pipelines put on chords)
+                from musiclang.transform import Mask
+                steps.append(("last", NT(), Mask.OriginateFrom(["s0"])))
+            all_tags = lambda x: [[sorted(ch.tags), [[sorted(mel.tags), [sorted(nt.tags) for nt in mel.notes]] for mel in ch.score.values()]] for ch in x.chords]
             tp = TransformPipeline(steps)(sc)
             manual = sc
             for st in steps:
@@ -539,7 +544,8 @@ class Pipelines(Stream):
             for st in steps:
                 nm, tr = st[0], st[1]
                 manual_c = manual_c + (tr(manual_c, on=st[2]) if len(st) == 3 else tr(manual_c)).add_tag_children(f"step_{nm}")
-            out = {"tp": str(tp) == str(manual) and tp == manual, "cp": str(cp) == str(manual_c) and cp == manual_c}
+            out = {"tp": str(tp) == str(manual) and tp == manual and all_tags(tp) == all_tags(manual),
+                   "cp": str(cp) == str(manual_c) and cp == manual_c and all_tags(cp) == all_tags(manual_c)}
             # combining a mask with others (&, |, ~, >) builds new masks: the mask itself keeps selecting the same elements
             ms = [mk_mask(m) for m in case["masks"]]
             base = ms[0] & ms[-1]
